@@ -3212,3 +3212,8 @@ Theorem no_success_after_failure : forall s e l1 l2, reachable s ->
 Proof.
   intros s e l1 l2 (roots & ls & ->). destruct (n_exec ls _ (sinv_start roots) (n_start roots)) as (_ & B). apply B.
 Qed.
+
+(* the kind of exception raised is not part of a program: scripts that differ only in the kinds are equal *)
+Lemma raise_kind_irrelevant : forall k k' ys lk gr,
+  RRaiseK k = RRaiseK k' /\ HGK k ys lk gr = HGK k' ys lk gr.
+Proof. intros. split; reflexivity. Qed.
